@@ -1,0 +1,155 @@
+// Deterministic-simulation seams. Compiled only with feature `verif-hooks`.
+//
+// Nothing in this module is reachable from a default build. It provides:
+// - a thread-local simulated clock (monotonic offset + wall-clock seconds),
+// - a thread-local crash-point callback for storage write paths,
+// - thread-local knobs for otherwise-constant tuning parameters.
+//
+// Every simulated run executes on one fresh OS thread (current-thread tokio
+// runtime), which is why thread-locals are sufficient and isolate runs.
+
+use std::cell::{Cell, RefCell};
+use std::path::Path;
+use std::time::{Duration, Instant};
+
+thread_local! {
+    static MONO_OFFSET_NS: Cell<u128> = const { Cell::new(0) };
+    static WALL_SECS: Cell<Option<i128>> = const { Cell::new(None) };
+    static WALL_NANOS: Cell<u32> = const { Cell::new(0) };
+    static BASE: Cell<Option<Instant>> = const { Cell::new(None) };
+    #[allow(clippy::type_complexity)]
+    static CRASH_CB: RefCell<Option<Box<dyn FnMut(&str, &Path) -> Option<std::io::Error>>>> = const { RefCell::new(None) };
+    static KNOBS: RefCell<std::collections::HashMap<&'static str, u64>> = RefCell::new(std::collections::HashMap::new());
+}
+
+/// Monotonic simulated instant: fixed per-thread base plus simulated offset.
+#[derive(Clone, Copy, Debug, PartialEq, Eq, PartialOrd, Ord, Hash)]
+pub struct SimInstant(Instant);
+
+impl SimInstant {
+    pub fn now() -> Self {
+        let base = BASE.with(|b| {
+            if let Some(i) = b.get() {
+                i
+            } else {
+                let i = Instant::now();
+                b.set(Some(i));
+                i
+            }
+        });
+        let off = MONO_OFFSET_NS.with(|o| o.get());
+        let secs = (off / 1_000_000_000) as u64;
+        let nanos = (off % 1_000_000_000) as u32;
+        SimInstant(base + Duration::new(secs, nanos))
+    }
+    pub fn elapsed(&self) -> Duration {
+        Self::now().duration_since(*self)
+    }
+    pub fn duration_since(&self, earlier: SimInstant) -> Duration {
+        self.0.saturating_duration_since(earlier.0)
+    }
+    pub fn saturating_duration_since(&self, earlier: SimInstant) -> Duration {
+        self.0.saturating_duration_since(earlier.0)
+    }
+    pub fn checked_duration_since(&self, earlier: SimInstant) -> Option<Duration> {
+        self.0.checked_duration_since(earlier.0)
+    }
+}
+
+impl std::ops::Add<Duration> for SimInstant {
+    type Output = SimInstant;
+    fn add(self, rhs: Duration) -> SimInstant {
+        SimInstant(self.0 + rhs)
+    }
+}
+impl std::ops::Sub<Duration> for SimInstant {
+    type Output = SimInstant;
+    fn sub(self, rhs: Duration) -> SimInstant {
+        SimInstant(self.0.checked_sub(rhs).unwrap_or(self.0))
+    }
+}
+impl std::ops::Sub<SimInstant> for SimInstant {
+    type Output = Duration;
+    fn sub(self, rhs: SimInstant) -> Duration {
+        self.0.saturating_duration_since(rhs.0)
+    }
+}
+
+/// Advance the simulated monotonic clock (and the wall clock if one is set).
+pub fn advance(d: Duration) {
+    MONO_OFFSET_NS.with(|o| o.set(o.get() + d.as_nanos()));
+    WALL_SECS.with(|w| {
+        if let Some(s) = w.get() {
+            let total = WALL_NANOS.with(|n| n.get()) as u128 + d.as_nanos();
+            w.set(Some(s + (total / 1_000_000_000) as i128));
+            WALL_NANOS.with(|n| n.set((total % 1_000_000_000) as u32));
+        }
+    });
+}
+
+/// Set the simulated wall clock (unix seconds). May move backwards.
+pub fn set_wall_secs(secs: u64) {
+    WALL_SECS.with(|w| w.set(Some(secs as i128)));
+    WALL_NANOS.with(|n| n.set(0));
+}
+
+/// Remove the simulated wall clock (fall back to the real one).
+pub fn clear_wall() {
+    WALL_SECS.with(|w| w.set(None));
+}
+
+/// Simulated unix seconds, or the real clock when no simulated wall clock is set.
+pub fn unix_secs() -> u64 {
+    match WALL_SECS.with(|w| w.get()) {
+        Some(s) => s.max(0) as u64,
+        None => std::time::SystemTime::now()
+            .duration_since(std::time::UNIX_EPOCH)
+            .map(|d| d.as_secs())
+            .unwrap_or(0),
+    }
+}
+
+/// Install (or clear) the crash-point callback for this thread.
+pub fn set_crash_callback(cb: Option<Box<dyn FnMut(&str, &Path) -> Option<std::io::Error>>>) {
+    CRASH_CB.with(|c| *c.borrow_mut() = cb);
+}
+
+/// A crash point: called by instrumented write paths. The callback may copy
+/// the directory ("process death here") and may return an error to inject.
+pub fn point(name: &str, path: &Path) -> Option<std::io::Error> {
+    CRASH_CB.with(|c| {
+        // Re-entrancy (a callback that itself triggers a point) is ignored.
+        if let Ok(mut g) = c.try_borrow_mut() {
+            if let Some(cb) = g.as_mut() {
+                return cb(name, path);
+            }
+        }
+        None
+    })
+}
+
+/// Same as [`point`] but converts an injected error into `Err`.
+pub fn point_io(name: &str, path: &Path) -> std::io::Result<()> {
+    match point(name, path) {
+        Some(e) => Err(e),
+        None => Ok(()),
+    }
+}
+
+pub fn set_knob(name: &'static str, v: Option<u64>) {
+    KNOBS.with(|k| {
+        let mut k = k.borrow_mut();
+        match v {
+            Some(v) => {
+                k.insert(name, v);
+            }
+            None => {
+                k.remove(name);
+            }
+        }
+    });
+}
+
+pub fn knob(name: &'static str) -> Option<u64> {
+    KNOBS.with(|k| k.borrow().get(name).copied())
+}
